@@ -20,6 +20,13 @@ theorem after_false {now ts : Int} (h : after now ts = false) : expired now ts =
   · simp [h0] at h ⊢
     omega
 
+theorem after_false' {now ts : Int} (h : after now ts = false) : ts ≠ 0 ∧ now ≤ ts := by
+  unfold after before at h
+  by_cases h0 : ts = 0
+  · simp [h0] at h
+  · simp [h0] at h
+    exact ⟨h0, h⟩
+
 /-- A usable source for a read of subject `s`: an entry with content that passes the expiry test. -/
 def Src (db : Db) (now : Int) (s : Subj) (check : Bool) (i : Idp) (x : Info) : Prop :=
   ∃ e, entryAt db s i = some e ∧ e.info = some x ∧ (check = true → after now e.ts = false)
